@@ -63,6 +63,7 @@ type Sink struct {
 	dir      string
 	prelude  string
 	checker  string // Coq function applied to the case list
+	oracle   string // optional Layer-B oracle applied to the case list
 	caseType string
 	perFile  int
 	cur      []string
@@ -160,6 +161,9 @@ func (s *Sink) flush() {
 	sb.WriteString(body)
 	sb.WriteString("\n].\n")
 	sb.WriteString("Definition R := Eval vm_compute in " + s.checker + " cases.\nPrint R.\n")
+	if s.oracle != "" {
+		sb.WriteString("Definition RB := Eval vm_compute in " + s.oracle + " cases.\nPrint RB.\n")
+	}
 	if err := os.WriteFile(filepath.Join(s.dir, name), []byte(sb.String()), 0o666); err != nil {
 		panic(err)
 	}
@@ -183,7 +187,7 @@ func (s *Sink) Close(rule string, exhaustive bool) {
 const gcsPrelude = `From Coq Require Import List NArith ZArith.
 Import ListNotations.
 From Emu.Common Require Import Bytes Str.
-From Emu.GCS Require Import Model Check.
+From Emu.GCS Require Import Model Check Oracles.
 `
 
 // ---------- stores ----------
